@@ -23,6 +23,10 @@ LogScns == {[kind |-> "logclean", present |-> p, current |-> c, enabled |-> e, d
 
 ASSUME \A s \in OptScns : OptOK(s) => PrintT(ToJson(s))
 ASSUME \A s \in SgeMem : PrintT(ToJson(s))
+(* a run that first submits a target without any option and then one that sets an option: the *)
+(* second target's directive must not depend on what was submitted before it                  *)
+ASSUME \A b \in {"slurm", "sge"}, k \in {"known_none", "known_default"}, a \in {"V1", "V2"} :
+          PrintT(ToJson([kind |-> "option", backend |-> b, okind |-> k, mode |-> "after_plain", wfdef |-> Absent, tmpl |-> Absent, arg |-> a]))
 ASSUME \A s \in ScriptScns : ScriptOK(s) => PrintT(ToJson(s))
 ASSUME \A s \in LogScns : PrintT(ToJson(s))
 =============================================================================
